@@ -1433,15 +1433,29 @@ def _get_lambda_assigned_name(module_tree, lambda_lineno) -> str | None:
             y = lambda: 42
         this function will return "y" if the lambda node starts at line 10.
     """
-    for node in module_tree.body:
-        if isinstance(node, Assign) and len(node.targets) == 1:
-            target = node.targets[0]
+    # Module-level statements, including those nested in blocks (`if`, `try`, ...) but
+    # not those inside functions and classes, whose names are no module attributes.
+    pending = list(module_tree.body)
+    while pending:
+        node = pending.pop(0)
+        if isinstance(node, FunctionDef | AsyncFunctionDef | ClassDef):
+            continue
+        if isinstance(node, Assign | ast.AnnAssign):
+            targets = node.targets if isinstance(node, Assign) else [node.target]
             if (
-                isinstance(target, ast.Name)
-                and isinstance(node.value, Lambda)
+                isinstance(node.value, Lambda)
                 and node.value.lineno == lambda_lineno
+                and isinstance(targets[0], ast.Name)
             ):
-                return target.id
+                return targets[0].id
+            continue
+        pending.extend(child for child in ast.iter_child_nodes(node) if isinstance(child, ast.stmt))
+        pending.extend(
+            statement
+            for child in ast.iter_child_nodes(node)
+            if isinstance(child, ast.ExceptHandler | ast.match_case)
+            for statement in child.body
+        )
     return None
 
 
